@@ -9,6 +9,7 @@ subscriptions' acks, other messages, background maintenance, failed requests —
 disappear."
 -/
 import Mmmbbb.Proofs.Fields
+import Mmmbbb.Proofs.Offered
 import Mmmbbb.Properties.C15
 namespace Mmmbbb
 
@@ -104,5 +105,85 @@ theorem C01_failed_request_no_change (st : St) (op : Op) (h : (step st op).2.ok 
 /-! **C01 (maintenance cannot lose an outstanding delivery)**: `C15_outstanding_survives` — a row that
 is not completed, inside its retention and whose subscription is live is not a victim of any of the
 three delivery prune jobs. -/
+
+theorem lookupAll_length {α} (f : Id → Option α) : ∀ (ids : List Id) (rows : List α),
+    lookupAll f ids = some rows → rows.length = ids.length := by
+  intro ids
+  induction ids with
+  | nil => intro rows h; unfold lookupAll at h; injection h with h; subst h; rfl
+  | cons i t ih =>
+    intro rows h
+    unfold lookupAll at h
+    split at h
+    · rename_i a rest _ hrest
+      injection h with h; subst h
+      simp [ih rest hrest]
+    · cases h
+
+/-- **C01 (offered)**: a pull whose delivery query returned fewer rows than it asked for has considered
+    every deliverable delivery of the subscription — not completed, inside its retention, due, (ordered)
+    not blocked — and each of them was handed out in this response, or was due for dead-lettering
+    (`C06_atomic` says what then happens), or was left out only because the response would have
+    exceeded the byte budget.  With an ample budget and no dead-letter policy: every deliverable
+    message is in the response. -/
+theorem C01_offered {db : Db} {now : Time} {sub : String} {max maxBytes : Nat} {strict : Bool}
+    {wait : Int} {obs : PullObs} {o : TxOut PullRes} {now' : Time}
+    (h : pull db now sub max maxBytes strict wait obs = .ok (o, now'))
+    (hlt : obs.cands.length < max) :
+    ∃ s, db.liveSubByName sub = some s ∧
+      ∀ e ∈ db.dels, (refreshExpiry db s now).eligible s now e = true →
+        ∃ c, c.id = e.id ∧ (refreshExpiry db s now).eligible s now c = true ∧
+          (c.id ∈ o.val.delivered.map (·.1) ∨ (s.dlTarget c).isSome = true ∨
+            ∃ m b, db.msgById c.msgId = some m ∧ maxBytes < b + m.plen) := by
+  unfold pull at h
+  split at h
+  · cases h
+  · rename_i s hs
+    refine ⟨s, hs, ?_⟩
+    simp only at h
+    split at h
+    · cases h
+    · rename_i cands hc
+      split at h
+      · cases h
+      · rename_i hok
+        have hok' : candsOk ((refreshExpiry db s now).eligible s now)
+            ((refreshExpiry db s now).dels.filter ((refreshExpiry db s now).eligible s now)) cands max = true := by
+          simpa using hok
+        have hmem : ∀ c ∈ cands, c ∈ (refreshExpiry db s now).dels := by
+          intro c hcm
+          obtain ⟨i, _, hi⟩ := lookupAll_spec _ _ _ hc c hcm
+          rw [Db.delById_eq] at hi
+          exact (mem_of_findDel hi).1
+        have hlen : cands.length < max := by rw [lookupAll_length _ _ _ hc]; exact hlt
+        have hcomp := cands_complete _ _ cands max hok' hmem hlen
+        have hall : ∀ c ∈ cands, (refreshExpiry db s now).eligible s now c = true := by
+          unfold candsOk at hok'
+          simp only [Bool.and_eq_true] at hok'
+          exact fun c hcm => List.all_eq_true.mp hok'.1.1.2 c hcm
+        intro e he hel
+        have hde : (refreshExpiry db s now).dels = db.dels := rfl
+        obtain ⟨c, hcm, hid⟩ := hcomp e (by rw [hde]; exact he) hel
+        refine ⟨c, hid, hall c hcm, ?_⟩
+        split at h
+        · rename_i hemp
+          have : cands = [] := List.isEmpty_iff.mp hemp
+          rw [this] at hcm; cases hcm
+        · split at h
+          · cases h
+          · rename_i o' hd
+            injection h with h; injection h with h1 _; subst h1
+            unfold pullDeliver at hd
+            split at hd
+            · cases hd
+            · rename_i acc hl
+              injection hd with hd; subst hd
+              obtain ⟨_, _, _, hfate⟩ := pullLoop_fate _ _ _ _ _ _ _ _ _ hl
+              rcases hfate c hcm with ⟨δ, hδ⟩ | hdl | ⟨m, hm, hb⟩
+              · left
+                simp only [List.map_map]
+                exact List.mem_map.mpr ⟨(c, δ), hδ, rfl⟩
+              · exact Or.inr (Or.inl hdl)
+              · exact Or.inr (Or.inr ⟨m, acc.bytes, hm, hb⟩)
 
 end Mmmbbb
